@@ -67,6 +67,14 @@ def check_grid(c):
                       lambda: 'index -> point -> index fails at %s' % np.nonzero(J[:, 0] != np.arange(n))[0][:5], tags + ['roundtrip'])
         else:
             res.skip('cell width below 1e4 ulp of the box magnitude')
+        # pipeline: the library's own flat grid fed directly into the index -> point map (dtype and all)
+        with warnings.catch_warnings():
+            warnings.simplefilter('ignore')
+            If = teneva.grid_flat([n])
+            Xf = teneva.ind_to_poi(If, a, b, n, kind)
+            Xf2 = teneva.ind_to_poi(teneva.grid_flat(n).reshape(-1, 1), a, b, n, kind)
+        res.check(np.array_equal(np.asarray(Xf, dtype=float), X) and np.array_equal(np.asarray(Xf2, dtype=float), X), 'pipeline.flat_to_poi', case,
+                  'ind_to_poi(grid_flat(n)) differs from ind_to_poi(arange(n))', tags)
         # single index / list / 1-D forms give the same bits
         i0 = n // 2
         one = teneva.ind_to_poi([i0], a, b, n, kind)
